@@ -341,3 +341,58 @@ def gamestate_bit_facts(F):
     ok = nf[0] == "struct" and dict(nf[2]).get("bitfield") == ("lit", 8)
     recs.append(("default=no-rights,no-en-passant", ok, fn["path"], hir.fmt(nf, 80)))
     return recs, layout
+
+
+# ---------------------------------------------------------------------------
+# emission lists: ordered string-building calls with the conditions they run under
+
+def emissions(fn, F, methods=("push", "push_str"), recv=None):
+    """[(node, method, arg normal form, guards)] for calls `<recv>.push(..)` in source order."""
+    body = fn["hir"]["body"]
+    env = hir.Env(fn["hir"], F)
+    sym = hir.Sym(env, F)
+    out = []
+    for n, anc in hir.walk(body):
+        if n.get("k") == "MethodCall" and n["name"] in methods:
+            r = hir.strip(n["recv"])
+            if recv is not None and not (r.get("k") == "Path" and r["to"].get("name") == recv):
+                continue
+            out.append((n, n["name"], sym(n["args"][0]), hir.guards_of(n, body, sym) or []))
+    return out, sym
+
+
+def loop_binders(guards):
+    """For-loop context of an emission: [(iterator normal form, bound names)] outermost first."""
+    out = []
+    pending = None
+    for g in guards:
+        if g[0] == "arm" and isinstance(g[1], tuple) and g[1][0] == "call" and str(g[1][1]).endswith("IntoIterator::into_iter"):
+            pending = g[1][2][0]
+        elif g[0] == "arm" and pending is not None and isinstance(g[1], tuple) and g[1][0] == "call" \
+                and str(g[1][1]).endswith("Iterator::next"):
+            out.append((pending, g[3] if len(g) > 3 else ()))
+            pending = None
+    return out
+
+
+def range_of(it):
+    """(start, end, reversed?) for `a..b` / `(a..b).rev()` normal forms, else None."""
+    rev = False
+    if it[0] == "call" and str(it[1]).endswith("Iterator::rev"):
+        rev = True
+        it = it[2][0]
+    if it[0] == "struct" and str(it[1]).endswith("ops::Range"):
+        d = dict(it[2])
+        return hir.sym_int(d.get("start")), hir.sym_int(d.get("end")), rev
+    return None
+
+
+def plain_guards(guards):
+    """Guards without the for-loop plumbing."""
+    out = []
+    for g in guards:
+        if g[0] == "arm" and isinstance(g[1], tuple) and g[1][0] == "call" and \
+                str(g[1][1]).endswith(("IntoIterator::into_iter", "Iterator::next")):
+            continue
+        out.append(g)
+    return out
